@@ -771,11 +771,30 @@ def c07_s6(ctx):
 def c07_s7(ctx):
     f = ctx.one("C07-S7", "SendTransaction::send_pdu")
 
+    def at_end_helper(name):
+        """A local method whose (Ok) result is `stream_position(handle) == metadata(handle).len()`."""
+        g = [x for x in impl_fns(ctx, SEND) if x.name == name]
+        if len(g) != 1:
+            return False
+        ebg = ExprBuilder(ctx.prog, g[0])
+        vals = []
+        for d in g[0].defs(0):
+            if d[0] == "assign":
+                e = simp(ebg.rvalue(d[3]))
+                if e[0] == "agg" and e[3] == "Ok" and e[5]:
+                    e = e[5][0]
+                vals.append(expr_str(e))
+            elif d[0] == "call" and not (ctx.prog.callee_of(d[2])[0] or "").endswith("from_residual"):
+                vals.append(sstr(ebg.call(d[1], d[2])))
+        return bool(vals) and all(v.startswith("Eq(") and "Seek>::stream_position(" in v and "Metadata::len(" in v and "File::metadata(" in v for v in vals)
+
     def track(key):
         if key[0] == "val":
             return key[1] == "self.send_state"
         if key[0] == "expr":
-            return key[1].startswith("Eq(") and "stream_position" in key[1]
+            return (key[1].startswith("Eq(") and "stream_position" in key[1]) or re.search(r"SendTransaction::\w+\((&mut |&)?self\)", key[1]) is not None
+        if key[0] == "call":
+            return key[1].startswith("cfdp_daemon::transaction::send::SendTransaction::")
         return False
 
     fl = Flow(ctx.prog, ctx.mods, f, track)
@@ -793,9 +812,14 @@ def c07_s7(ctx):
 
         def guard(dw):
             for k, (pos, s) in dw.items():
-                if k[0] == "expr" and k[1].startswith("Eq(") and pos and s == frozenset([1]):
+                if not (pos and s == frozenset([1])):
+                    continue
+                if k[0] == "expr" and k[1].startswith("Eq("):
                     if "Seek>::stream_position(" in k[1] and "Metadata::len(" in k[1] and "File::metadata(" in k[1]:
                         return True
+                m = re.search(r"SendTransaction::(\w+)\(", k[1]) if k[0] in ("expr", "call") else None
+                if m and at_end_helper(m.group(1)):
+                    return True
             return False
 
         good, w = all_worlds_satisfy(frozenset(data_w), guard)
